@@ -5,7 +5,7 @@ SPEC = dict(
     lean_targets=["SwayVerif.Props.C12"], audit="SwayVerif/Audit/C12.lean",
     theorems=["C12_readback", "C12_member_readback", "slots_contiguous", "serialize_none_iff", "C12_disjoint_partial",
               "C12_readback_all_partial", "key_preimage_injective", "key_preimage_domain", "C12_prop_of_model"],
-    steps=[dict(bin="sv_c12", area="c12", n_quick=48, n_thorough=600, corpus="corpus/c12.txt",
+    steps=[dict(bin="sv_c12", area="c12", n_quick=48, n_thorough=360, corpus="corpus/c12.txt",
                 dist_keys=("kind", "nsl", "keykind", "unitvar", "nsdepth", "nsubs"), timeout=3000,
                 nontrivial=lambda case, impl, kv: kv.get("kind") in ("struct", "enum", "str", "decl"))],
     rule="random `storage {..}` declarations (12 fields per contract: u8/u16/u32/u64/bool/b256/u256/str[N], nested tuples, "
